@@ -115,6 +115,13 @@ def bucket_features(case):
         f.add("plus-value-above-event-variable")
     if any(it["val"] and any(it["v"] == n for j in items for n, _ in j["do"]) for it in items):
         f.add("plus-value-name-is-a-subscript")
+    marks_by_name = {}
+    for it in items:
+        for n, s_ in it["do"]:
+            marks_by_name.setdefault(n, set()).add(bool(s_))
+        marks_by_name.setdefault(it["v"], set()).add(bool(it["val"]))
+    if any(len(v) > 1 for v in marks_by_name.values()):
+        f.add("name-at-two-values")
     return {x for x in f if not x.startswith("worlds=")} | ({"multiworld"} if "worlds=1" not in f else set())
 
 
